@@ -159,9 +159,11 @@ func (s *Sys) Image() *Image {
 
 // BootData starts a new Core over the given raw content (restart / crash
 // recovery): NewCore + unseal with the saved shares.
+// The deterministic random stream is NOT rewound here: a restart inside one
+// execution must not hand out the identifiers of the first process again
+// (Boot, the start of an execution, rewinds it).
 func BootData(t *testing.T, data map[string][]byte, img *Image) (*Sys, error) {
 	sched.InstallDetRand(0x5eed)
-	sched.ResetDetRand()
 	inner := newInner(img.Opt)
 	if err := physx.Restore(inner, data); err != nil {
 		return nil, err
@@ -191,7 +193,6 @@ func BootData(t *testing.T, data map[string][]byte, img *Image) (*Sys, error) {
 // BootSealed starts a new Core over raw content and leaves it sealed.
 func BootSealed(t *testing.T, data map[string][]byte, img *Image) (*Sys, error) {
 	sched.InstallDetRand(0x5eed)
-	sched.ResetDetRand()
 	inner := newInner(img.Opt)
 	if err := physx.Restore(inner, data); err != nil {
 		return nil, err
@@ -219,6 +220,8 @@ func (s *Sys) TryUnseal(keys [][]byte) (bool, error) {
 }
 
 func Boot(t *testing.T, img *Image) *Sys {
+	sched.InstallDetRand(0x5eed)
+	sched.ResetDetRand()
 	s, err := BootData(t, img.Data, img)
 	if err != nil {
 		t.Fatalf("harness: boot from image failed: %v", err)
